@@ -111,7 +111,13 @@ def summarise(results, jobs):
             outcomes[k] = outcomes.get(k, 0) + v
         violations += r['viol']
         broken += r['broken']
-    cov = {'evaluations': evals, 'programs': len(jobs), 'well_scoped_programs': ws1, 'programs_with_shadowing': ws0,
+    samples = []
+    for j in jobs:
+        if len(samples) >= 3:
+            break
+        if j['id'].startswith('gen') and j['program']['templates']:
+            samples.append({'description': envgen.grammar_text(j['program']), 'inputs': j['inputs'][:6]})
+    cov = {'samples': samples, 'evaluations': evals, 'programs': len(jobs), 'well_scoped_programs': ws1, 'programs_with_shadowing': ws0,
            'cases_where_model_is_undefined': stuck, 'real_outcomes': outcomes, 'programs_compared_with_their_expansion': expanded, 'argument_expressions_with_helper_functions': closure_args, 'expansions_compared_with_lean_subst': subst_ties,
            'distinct_nontrivial': ws1 + ws0}
     return cov, violations, broken
